@@ -1,0 +1,14 @@
+//go:build verif
+
+package utils
+
+import "github.com/feichai0017/NoKV/vfs"
+
+// VerifFile exposes the locked LOCK file handle so that the simulation can
+// tell which inode a holder has locked (simulation only).
+func (l *DirLock) VerifFile() vfs.File {
+	if l == nil {
+		return nil
+	}
+	return l.file
+}
